@@ -54,6 +54,8 @@ class BinsEncoder:
                 raise EncodingError("missing module constant " + k)
             self.const[k] = getattr(B, k)
         self.nodes = 0
+        self.side_conditions = []
+        self._pc = []
 
     # ---- expression evaluation
     def ev(self, node, env):
@@ -78,7 +80,57 @@ class BinsEncoder:
                 return l ** r
             if isinstance(node.op, ast.Mult) and (isinstance(l, int) or isinstance(r, int)):
                 return l * r
+            if isinstance(node.op, ast.LShift) and isinstance(r, int) and r >= 0:
+                return l * (2 ** r)
+            if isinstance(node.op, ast.FloorDiv) and isinstance(r, int) and r > 0:
+                return (l // r) if isinstance(l, int) else (l / r)
+            if isinstance(node.op, ast.Mod) and isinstance(r, int) and r > 0:
+                return l % r
+            if isinstance(node.op, ast.BitAnd) and isinstance(r, int) and r >= 0 and (r & (r + 1)) == 0:
+                return l % (r + 1)  # x & (2^k - 1) == x mod 2^k (python semantics for negative x too)
             raise EncodingError("binop " + ast.dump(node.op))
+        if isinstance(node, ast.IfExp):
+            c = self.ev(node.test, env)
+            a, b = self.ev(node.body, env), self.ev(node.orelse, env)
+            if isinstance(c, bool):
+                return a if c else b
+            if isinstance(a, SymSet) or isinstance(b, SymSet):
+                raise EncodingError("conditional set expression")
+            a = a if z3.is_expr(a) else z3.IntVal(a)
+            b = b if z3.is_expr(b) else z3.IntVal(b)
+            return z3.If(c, a, b)
+        if isinstance(node, ast.Call):
+            f = node.func
+            args = [self.ev(a, env) for a in node.args]
+            if node.keywords:
+                raise EncodingError("call with keywords")
+            if isinstance(f, ast.Name) and f.id in ("min", "max") and len(args) >= 2:
+                out = args[0]
+                for a in args[1:]:
+                    if isinstance(out, int) and isinstance(a, int):
+                        out = min(out, a) if f.id == "min" else max(out, a)
+                    else:
+                        o2 = out if z3.is_expr(out) else z3.IntVal(out)
+                        a2 = a if z3.is_expr(a) else z3.IntVal(a)
+                        out = z3.If(a2 < o2, a2, o2) if f.id == "min" else z3.If(a2 > o2, a2, o2)
+                return out
+            if isinstance(f, ast.Name) and f.id == "abs" and len(args) == 1:
+                a = args[0]
+                return abs(a) if isinstance(a, int) else z3.If(a < 0, -a, a)
+            if isinstance(f, ast.Name) and f.id == "int" and len(args) == 1:
+                return args[0]
+            if isinstance(f, ast.Attribute) and f.attr == "bit_length" and not args:
+                x = self.ev(f.value, env)
+                if isinstance(x, int):
+                    return x.bit_length()
+                ax = z3.If(x < 0, -x, x)
+                # exact for |x| < 2^64; the side condition is recorded and must be implied by the query's assumptions
+                self.side_conditions.append(z3.Implies(z3.And(self._pc) if self._pc else z3.BoolVal(True), ax < 2 ** 64))
+                out = z3.IntVal(64)
+                for k in range(63, -1, -1):
+                    out = z3.If(ax < 2 ** k, z3.IntVal(k), out)
+                return out
+            raise EncodingError("call " + ast.dump(f)[:80])
         if isinstance(node, ast.UnaryOp) and isinstance(node.op, ast.Not):
             v = self.ev(node.operand, env)
             return (not v) if isinstance(v, bool) else z3.Not(v)
@@ -86,8 +138,17 @@ class BinsEncoder:
             return -self.ev(node.operand, env)
         if isinstance(node, ast.Subscript):
             base, idx = self.ev(node.value, env), self.ev(node.slice, env)
-            if z3.is_expr(idx) or z3.is_expr(base):
-                raise EncodingError("symbolic subscript")
+            if z3.is_expr(base):
+                raise EncodingError("symbolic subscript base")
+            if z3.is_expr(idx):
+                if not isinstance(base, (list, tuple)) or not all(isinstance(v, int) for v in base):
+                    raise EncodingError("symbolic subscript into non-int sequence")
+                # in-range index is a side condition (python would raise IndexError / wrap negative indexes)
+                self.side_conditions.append(z3.Implies(z3.And(self._pc) if self._pc else z3.BoolVal(True), z3.And(idx >= 0, idx < len(base))))
+                out = z3.IntVal(base[-1])
+                for i in range(len(base) - 2, -1, -1):
+                    out = z3.If(idx == i, z3.IntVal(base[i]), out)
+                return out
             return base[idx]
         if isinstance(node, ast.Set):
             return SymSet(singles=[self.ev(e, env) for e in node.elts])
@@ -109,20 +170,29 @@ class BinsEncoder:
         raise EncodingError("expr " + ast.dump(node)[:120])
 
     def block(self, stmts, env, pc, results):
+        """returns [(env, pc)] of states falling through; states that executed break/continue carry env['$ctl']"""
         states = [(env, pc)]
         for st in stmts:
             nxt = []
             for env2, pc2 in states:
-                nxt.extend(self.stmt(st, env2, pc2, results))
+                if env2.get("$ctl"):
+                    nxt.append((env2, pc2))
+                else:
+                    nxt.extend(self.stmt(st, env2, pc2, results))
             states = nxt
         return states
 
     def stmt(self, st, env, pc, results):
         self.nodes += 1
+        self._pc = pc
         if isinstance(st, ast.Expr) and isinstance(st.value, ast.Constant):
             return [(env, pc)]  # docstring
         if isinstance(st, ast.Pass):
             return [(env, pc)]
+        if isinstance(st, (ast.Break, ast.Continue)):
+            e = dict(env)
+            e["$ctl"] = "break" if isinstance(st, ast.Break) else "continue"
+            return [(e, pc)]
         if isinstance(st, ast.Return):
             results.append((z3.And(pc) if pc else z3.BoolVal(True), self.ev(st.value, env)))
             return []
@@ -158,14 +228,20 @@ class BinsEncoder:
             if not isinstance(it, (list, tuple)):
                 raise EncodingError("for over non-constant iterable")
             states = [(env, pc)]
+            done = []
             for v in it:
                 nxt = []
                 for env2, pc2 in states:
                     e = dict(env2)
                     e[st.target.id] = v
-                    nxt.extend(self.block(st.body, e, pc2, results))
+                    for e3, pc3 in self.block(st.body, e, pc2, results):
+                        ctl = e3.get("$ctl")
+                        if ctl:
+                            e3 = dict(e3)
+                            del e3["$ctl"]
+                        (done if ctl == "break" else nxt).append((e3, pc3))
                 states = nxt
-            return states
+            return states + done
         # <set>.update(list(range(a, b)))  /  <set>.update(range(a, b))
         if (isinstance(st, ast.Expr) and isinstance(st.value, ast.Call) and isinstance(st.value.func, ast.Attribute)
                 and st.value.func.attr == "update" and isinstance(st.value.func.value, ast.Name)):
